@@ -12,6 +12,7 @@ import concurrent.futures as cf
 import glob
 import os
 import resource
+import shutil
 import subprocess
 
 import vlib
@@ -84,7 +85,25 @@ def run_sharded(exe, lines, timeout=600, big_stack=False, shards=None):
             r = f.result()
             for k in range(len(chunks[i])):
                 res[i + k * n] = r[k] if k < len(r) else (None, "missing")
+    # the harness could not set its socket pair up (environment, not the code under test): try again, one by one
+    for i, (o, e) in enumerate(res):
+        if o == "SETUPFAIL":
+            for _ in range(3):
+                r = run_shard(exe, [lines[i]], timeout, big_stack)
+                if r and r[0][0] != "SETUPFAIL":
+                    res[i] = r[0]
+                    break
+            else:
+                res[i] = (None, "the harness could not create its socket pair (3 retries)")
     return res
+
+
+def private_scratch():
+    """socket files of the harness live in a directory nobody else cleans up"""
+    import tempfile
+    d = tempfile.mkdtemp(prefix="rbv_")
+    os.environ["VERIF_SCRATCH"] = d
+    return d
 
 
 # ------------------------------------------------------------------ generators
@@ -413,7 +432,7 @@ def evaluate(ctx, exe, drv, cases, model_max, timeout):
             else:
                 ctx.count("model_skipped:unexpected_io_result")
         else:
-            ctx.count("model_skipped:too_large(predicate+closed form only)")
+            ctx.count("model_skipped:too_large(property predicate only)")
     mouts = run_sharded(drv, mlines, timeout=timeout, big_stack=True)
     for ci, ml, (mo, err) in zip(midx, mlines, mouts):
         head, msgs = cases[ci]
@@ -478,10 +497,14 @@ def run(ctx):
                 cases.append(parse_case_line(line))
     ctx.count("corpus", len(cases))
     r = ctx.sub_rng("gen")
-    n = 2500 if thorough else 170
+    n = 2500 if thorough else 450
     for _ in range(n):
         cases.append(gen_case(r, thorough))
-    evaluate(ctx, exe, drv, cases, MODEL_MAX_THOROUGH if thorough else MODEL_MAX_QUICK, timeout=1800 if thorough else 240)
+    tmp = private_scratch()
+    try:
+        evaluate(ctx, exe, drv, cases, MODEL_MAX_THOROUGH if thorough else MODEL_MAX_QUICK, timeout=1800 if thorough else 240)
+    finally:
+        shutil.rmtree(tmp, ignore_errors=True)
     ctx.exhaustive = False
 
 
@@ -491,6 +514,9 @@ def replay(ctx, body):
     line = data["case"]
     head, msgs = parse_case_line(line)
     failed = 0
+    tmp = private_scratch()
+    import atexit
+    atexit.register(shutil.rmtree, tmp, True)
     for attempt in range(5):          # the kernel decides the schedule; repeat a few times
         rc, out, err = run_proc(exe, [line], 240)
         if not out:
